@@ -157,7 +157,15 @@ static void one(vh::Rng& r) {
       clause("identity", "mHp2=mA2+mW2", std::fabs(mHp * mHp - (mA * mA + MW2s)) / hscale, 1e-9, c);
       clause("identity", "mh2+mH2=mA2+mZ2", std::fabs(mh * mh + mH * mH - (mA * mA + MZ2)) / hscale, 1e-9, c);
       clause("identity", "mA2=Bmu/(sb cb)", std::fabs(mA * mA - mA2) / hscale, 1e-9, c);
+      // the dedicated getters of the physical states (the Goldstone mode removed)
+      { const double gA = m.get_MPseudoscalarHiggs()(0), gHp = m.get_MChargedHiggs()(0);
+        clause("getter", "get_MPseudoscalarHiggs=mA", std::fabs(gA * gA - mA2) / hscale, 1e-9, c);
+        clause("getter", "get_MChargedHiggs=mHp", std::fabs(gHp * gHp - (mA2 + MW2s)) / hscale, 1e-9, c); }
    } else out->count("higgs-tachyonic-or-ambiguous");
+   // gluino and the massless states
+   clause("getter", "get_MGlu=|M3|", std::fabs(m.get_MGlu() - std::fabs(p.M3g)) / std::fabs(p.M3g), 1e-15, c);
+   clause("getter", "MGlu*PhaseGlu^2=M3", std::abs(m.get_PhaseGlu() * m.get_PhaseGlu() * m.get_MGlu() - cd(p.M3g, 0.0)) / std::fabs(p.M3g), 1e-15, c);   // convention: M3 = |M3| e^(2 i phi)
+   clause("getter", "massless(VG,VP,Fv)", std::max({std::fabs(m.get_MVG()), std::fabs(m.get_MVP()), std::fabs(m.get_MFve()), std::fabs(m.get_MFvm()), std::fabs(m.get_MFvt())}), 0, c);
    // neutralino: ZN^* M ZN^+ = diag(MChi), M = ZN^T diag ZN
    {
       const double gY = std::sqrt(gp2), g2 = p.g2;
